@@ -12,6 +12,25 @@ use std::sync::Arc;
 pub struct C14;
 
 const NAMES: [&str; 3] = ["n1", "n1x", "n3.example"];
+/// certificate kinds an adversary can present: one per network name, then a certificate without
+/// any subject alternative name and one with an IP-address entry only
+const CERT_KINDS: usize = 5;
+
+fn cert_label(c: usize) -> &'static str {
+    match c {
+        0..=2 => NAMES[c],
+        3 => "<no name at all>",
+        _ => "<an IP address only>",
+    }
+}
+
+fn adversary_identity(c: usize) -> Identity {
+    if c < 3 {
+        Identity::honest(7, NAMES[c])
+    } else {
+        Identity { chain: vec![crate::certs::ed25519_cert_nameless(7, c == 4)], signer: Some(crate::adversary::signing_key(&crate::adversary::ed25519_pkcs8(7))) }
+    }
+}
 
 /// (primary, alternate) configurations over the three names
 fn configs() -> Vec<(usize, Option<usize>)> {
@@ -95,8 +114,7 @@ async fn scenario(sim: Arc<Sim>, unit: Value) -> Obs {
             let (mut el, _) = l.subscribe().unwrap();
             let adv = Adversary::new(&sim, None);
             let sni = unit["sni"].as_str().unwrap();
-            let cert_name = NAMES[unit["cert_name"].as_u64().unwrap() as usize];
-            let id = Identity::honest(7, cert_name);
+            let id = adversary_identity(unit["cert_name"].as_u64().unwrap() as usize);
             match adv.dial(l.local_addr(), sni, &id).await {
                 Ok(conn) => {
                     let ack = tokio::time::timeout(ms(3000), Adversary::read_ack(&conn)).await;
@@ -114,8 +132,7 @@ async fn scenario(sim: Arc<Sim>, unit: Value) -> Obs {
         "adv_listener" => {
             let d = sim.start(&spec(1, cfg_of(&unit["dialer"]))).unwrap();
             let (mut ed, _) = d.subscribe().unwrap();
-            let cert_name = NAMES[unit["cert_name"].as_u64().unwrap() as usize];
-            let adv = Adversary::new(&sim, Some(&Identity::honest(7, cert_name)));
+            let adv = Adversary::new(&sim, Some(&adversary_identity(unit["cert_name"].as_u64().unwrap() as usize)));
             let ep = adv.endpoint.clone();
             let acceptor = tokio::spawn(async move {
                 if let Some(inc) = ep.accept().await {
@@ -167,9 +184,9 @@ fn judge(unit: &Value, o: &Obs) -> Judged {
             let sni = unit["sni"].as_str().unwrap();
             let c = unit["cert_name"].as_u64().unwrap() as usize;
             let sni_ok = NAMES.iter().position(|n| *n == sni).map(|i| accepts(l, i)).unwrap_or(false);
-            let expect = sni_ok && accepts(l, c);
+            let expect = sni_ok && c < 3 && accepts(l, c);
             let admitted = o.events_listener.iter().any(|e| e.starts_with("New")) || o.adversary_got_ack == Some(true);
-            let ctx = format!("[listener primary {} alt {:?}; adversary claims SNI {sni:?} with a certificate for {}]", NAMES[l.0], l.1.map(|a| NAMES[a]), NAMES[c]);
+            let ctx = format!("[listener primary {} alt {:?}; adversary claims SNI {sni:?} with a certificate for {}]", NAMES[l.0], l.1.map(|a| NAMES[a]), cert_label(c));
             class = format!("adv_dialer expect={expect} admitted={admitted}");
             if admitted && !expect {
                 v.push(("name-mismatch-admitted".into(), format!("{ctx} was admitted: events {:?}, ack {:?}", o.events_listener, o.adversary_got_ack)));
@@ -182,7 +199,7 @@ fn judge(unit: &Value, o: &Obs) -> Judged {
             let d = cfg_of(&unit["dialer"]);
             let c = unit["cert_name"].as_u64().unwrap() as usize;
             let expect = c == d.0;
-            let ctx = format!("[dialer primary {} alt {:?}; answering party presents a certificate for {}]", NAMES[d.0], d.1.map(|a| NAMES[a]), NAMES[c]);
+            let ctx = format!("[dialer primary {} alt {:?}; answering party presents a certificate for {}]", NAMES[d.0], d.1.map(|a| NAMES[a]), cert_label(c));
             class = format!("adv_listener expect={expect} got={} sni={:?}", o.connected.is_ok(), o.sni_seen.first());
             for s in &o.sni_seen {
                 if s.as_deref() != Some(NAMES[d.0]) {
@@ -213,6 +230,23 @@ fn verifier_layer(out: &mut UnitResult) {
     let pid = peer_id_of_key(5);
     for mask in 1u32..16 {
         let accepted: Vec<String> = (0..4).filter(|i| mask & (1 << i) != 0).map(|i| all[i].to_string()).collect();
+        // certificates that name no network: never acceptable, whatever the accepted names
+        for ip_only in [false, true] {
+            let cert = crate::certs::ed25519_cert_nameless(5, ip_only);
+            out.evaluations += 1;
+            if anemo::verif::crypto::verify_client_cert(&accepted, &cert, &[], now).is_ok() {
+                out.violation("verifier-name-check", format!("verify_client_cert with accepted {accepted:?} admitted a certificate that names no network (ip-only SAN: {ip_only})"), json!({"layer":"verifier","accepted":accepted,"cert":"nameless"}));
+            }
+            out.class("verifier client exp=false");
+            for dialed in all {
+                out.evaluations += 1;
+                let sn = ServerName::try_from(dialed).unwrap();
+                if anemo::verif::crypto::verify_server_cert(&accepted, None, &cert, &[], &sn, now).is_ok() {
+                    out.violation("verifier-name-check", format!("verify_server_cert with accepted {accepted:?}, dialed {dialed:?} admitted a certificate that names no network (ip-only SAN: {ip_only})"), json!({"layer":"verifier","accepted":accepted,"cert":"nameless","dialed":dialed}));
+                }
+                out.class("verifier server exp=false");
+            }
+        }
         for (ci, cert) in certs.iter().enumerate() {
             out.evaluations += 1;
             let got = anemo::verif::crypto::verify_client_cert(&accepted, cert, &[], now).is_ok();
@@ -242,7 +276,7 @@ impl Check for C14 {
         CheckMeta {
             property: "C14",
             level: "exploration",
-            rule: "all 9x9 (primary, alternate) configurations of dialer and listener over three names, with and without identity pinning, both key orders; an adversarial dialer for every (claimed SNI in 4 names) x (certificate name) x (listener configuration); an adversarial listener for every (certificate name) x (dialer configuration) recording the announced SNI; plus the certificate verifiers on every (accepted-name subset, certificate name, dialed name) triple; distinct = distinct (scenario kind, expected, observed)".into(),
+            rule: "all 9x9 (primary, alternate) configurations of dialer and listener over three names, with and without identity pinning, both key orders; an adversarial dialer for every (claimed SNI in 4 names) x (certificate for each name, for no name at all, for an IP address only) x (listener configuration); an adversarial listener for every (certificate name) x (dialer configuration) recording the announced SNI; plus the certificate verifiers on every (accepted-name subset, certificate name, dialed name) triple; distinct = distinct (scenario kind, expected, observed)".into(),
             assumptions: vec!["three network names (one a proper prefix of another: n1, n1x, n3.example) plus one unknown name stand for all names".into()],
             exhaustive: true,
         }
@@ -264,13 +298,13 @@ impl Check for C14 {
         }
         for l in &cs {
             for sni in ["n1", "n1x", "n3.example", "zz"] {
-                for c in 0..3 {
+                for c in 0..CERT_KINDS {
                     u.push(json!({"kind":"adv_dialer","listener":j(l),"sni":sni,"cert_name":c}));
                 }
             }
         }
         for d in &cs {
-            for c in 0..3 {
+            for c in 0..CERT_KINDS {
                 u.push(json!({"kind":"adv_listener","dialer":j(d),"cert_name":c}));
             }
         }
